@@ -375,7 +375,9 @@ pub fn encode_block(b: &Blk, intra: bool, hdr: &Header, w: &mut BitWriter) {
     }
 }
 
-pub fn encode_mb(mb: &Mb, hdr: &Header, w: &mut BitWriter) {
+/// COD / MCBPC / CBPY / DQUANT / MVD part of a macroblock (everything before the block layer),
+/// including any MCBPC stuffing codes that precede it.
+pub fn encode_mb_header(mb: &Mb, hdr: &Header, w: &mut BitWriter) {
     let inter_pic = hdr.ptype != PicType::I;
     for _ in 0..mb.stuffing {
         if inter_pic {
@@ -387,7 +389,7 @@ pub fn encode_mb(mb: &Mb, hdr: &Header, w: &mut BitWriter) {
     }
     if mb.kind == MbKind::NotCoded {
         // only expressible in inter pictures; in an I picture there is no COD bit, so a
-        // "not coded" macroblock cannot be written (hostile generators use raw bits instead)
+        // "not coded" macroblock cannot be written
         if inter_pic {
             w.put_bit(true);
         }
@@ -442,6 +444,13 @@ pub fn encode_mb(mb: &Mb, hdr: &Header, w: &mut BitWriter) {
             w.put_code(enc().mvd[&mb.mvd[k].0.clamp(-32, 31)]);
             w.put_code(enc().mvd[&mb.mvd[k].1.clamp(-32, 31)]);
         }
+    }
+}
+
+pub fn encode_mb(mb: &Mb, hdr: &Header, w: &mut BitWriter) {
+    encode_mb_header(mb, hdr, w);
+    if mb.kind == MbKind::NotCoded {
+        return;
     }
     for b in &mb.blocks {
         encode_block(b, mb.kind.is_intra(), hdr, w);
